@@ -276,9 +276,10 @@ class HyperRAMInterface(Elaboratable):
                 ]
                 m.d.comb += self.write_ready.eq(1),
 
-                # If we just finished a register write, we're done -- there's no need for recovery.
+                # If we just finished a register write, there's no more data; but we still need to release CS
+                # before a new transaction can begin.
                 with m.If(is_register):
-                    m.next = 'IDLE'
+                    m.next = 'RECOVERY'
 
                 with m.Elif(self.final_word):
                     m.next = 'RECOVERY'
